@@ -680,6 +680,9 @@ func hijackKey(c *hcase, v vio) string {
 	if daemonDown {
 		return fmt.Sprintf("C12|%s|%s|daemon-unreachable|%s", c.Cmd, c.Style, v.symptom)
 	}
+	if coldHeaders {
+		return fmt.Sprintf("C12|%s|%s|cold-header-cache|%s", c.Cmd, c.Style, v.symptom)
+	}
 	if c.Enc != "" {
 		return fmt.Sprintf("C12|%s|%s|spelling:%s|%s", c.Cmd, c.Style, c.Enc, v.symptom)
 	}
@@ -746,6 +749,32 @@ func TestHijackDaemonUnreachable(t *testing.T) {
 		}
 	}
 	sec.Bounds["daemon"] = "stopped after the rig's warm-up request: every connection attempt is refused"
+	sec.Bounds["methods"] = []string{"POST", "GET"}
+	runHijackCases(t, sec, cases)
+}
+
+// TestHijackColdHeaderCache: the proxy copies some response headers from the
+// daemon and caches them (extract_headers_ttl). With the cache expired, every
+// hijacked request triggers that side request: it must go to the configured
+// extraction path, never to the path of the request being answered.
+func TestHijackColdHeaderCache(t *testing.T) {
+	sec := R.Sec("hijack/cold-header-cache")
+	coldHeaders = true
+	defer func() { coldHeaders = false }()
+	var cases []hcase
+	sets := optionSets(false)
+	for _, cmd := range commands {
+		for _, style := range []string{"query", "slash"} {
+			for _, a := range argAlphabet {
+				for _, os := range sets {
+					for _, m := range []string{"POST", "GET"} {
+						cases = append(cases, hcase{Cmd: cmd, Style: style, Arg: a, To: argByName("ipfs-path"), Opts: os, Method: m, Body: bodyFor(cmd)})
+					}
+				}
+			}
+		}
+	}
+	sec.Bounds["extract_headers_ttl"] = "1ns: the header cache is cold at every request"
 	sec.Bounds["methods"] = []string{"POST", "GET"}
 	runHijackCases(t, sec, cases)
 }
